@@ -319,6 +319,23 @@ def gen_stub(c, table):
 KNOWN = []
 UF_MODE = ['all']   # all | skip (omit clauses tagged UF) | only (emit only clauses tagged UF)
 
+def lower_implies(e):
+    """C/C++ have no ==>: rewrite a ==> b as (!(a) || (b)), recursively inside parentheses"""
+    parts = split_top_op(e, '==>')
+    if len(parts) > 1:
+        return '(!(%s) || (%s))' % (lower_implies(parts[0]), lower_implies(' ==> '.join(parts[1:])))
+    out, i = '', 0
+    while i < len(e):
+        if e[i] == '(':
+            q = match_paren(e, i)
+            out += '(' + lower_implies(e[i + 1:q]) + ')'
+            i = q + 1
+        else:
+            out += e[i]; i += 1
+    return out
+
+NATIVE = []
+
 def gen_harness(c, table):
     ret, name, params = c['ret'], c['name'], c['params']
     req = [x for x in c['clauses'] if x[0] == 'requires']
@@ -353,6 +370,8 @@ def gen_harness(c, table):
             continue
         table.append(dict(id=cid, kind='ensures', function=name, tags=tags, text=e, line=line, comment=comment, uf=isuf))
         e2 = sub_ptreq(sub_fresh(sub_olds(e, ot), 'POST').replace('__CPROVER_return_value', '__ret'))
+        if not ol:
+            NATIVE.append((cid, re.sub(r'\bthis\b', 'self_', lower_implies(e2))))
         tg = ''.join('[%s]' % t for t in tags)
         e = e[:300]
         kfs = [k for k in KNOWN if k.get('clause') == 'ensures.%d' % i]
@@ -401,6 +420,7 @@ def main():
     ap.add_argument('--out', required=True)
     ap.add_argument('--known')
     ap.add_argument('--uf-mode', default='all')
+    ap.add_argument('--native', help='write the ensures clauses of the enforced function as C++ expressions')
     ap.add_argument('files', nargs='+')
     a = ap.parse_args()
     UF_MODE[0] = a.uf_mode
@@ -412,6 +432,10 @@ def main():
         t = open(f).read()
         o = transform(t, a.enforce, set(a.replace), table, seen)
         open(os.path.join(a.out, os.path.basename(f)), 'w').write(o)
+    if a.native:
+        with open(a.native, 'w') as f:
+            for cid, e in NATIVE:
+                f.write('CLAUSE("%s", (%s))\n' % (cid, re.sub(r'\s+', ' ', e)))
     missing = [x for x in [a.enforce] + a.replace if x not in seen]
     json.dump(dict(enforce=a.enforce, replace=a.replace, clauses=table, missing=missing), open(os.path.join(a.out, 'modeb.json'), 'w'), indent=1)
     if missing:
